@@ -106,6 +106,24 @@ CHECKS = {
    "Failure stage is by construction of the case. Every document of _testdata/negative is an additional stage judged by its observed exit code (x clean on/off x 3 target states). Snapshots cover names, types, modes, sizes, sha256 and link targets (not timestamps).",
    "DESIGN.md §2 C20"),
 }
+# additions of the third/fourth round of seeded changes (DESIGN.md §8.6), appended to the level text
+EXTRA = {
+ "C01": " Operations with several parameters: 160 (thorough 1200) PRNG draws of 2-4 admitted combinations per operation (at least two of one location), since generated code serves all parameters of a location with one encoder and one decoder.",
+ "C02": " A 'skipped construct' family (an operation contributes security scopes, component parameters, bodies or inline types and is then dropped under ignore_not_implemented because of one unsupported detail, next to a supported twin) and crafted regressions for the repaired form/JSON shared body and the listed F-C02-27. Known findings about generic wrappers are matched by the compiler message plus a predicate on the document (an operation with two responses of the same nullable primitive).",
+ "C03": " Four crafted families use one array/object component as optional member here and required member, item or element there, in both declaration orders.",
+ "C06": " Several parameters per request: k = 2..3 parameters that each round-trip alone go through ONE QueryEncoder/HeaderEncoder/CookieEncoder and one decoder (forward and reverse order); the shared request must carry exactly what the one-parameter requests carry and every parameter must decode as it does alone (40 000 cases quick, 600 000 thorough).",
+ "C08": " Escape sequences: every ordered pair (and triple over a smaller alphabet) of control, hexadecimal, code-point and legacy octal escapes of different magnitude, as atoms and as class members (about 1 900 patterns).",
+ "C09": " Requirement structures in which alternatives name a scheme type ogen does not implement (openIdConnect; all 255 structures over {header, openIdConnect, cookie} and a global requirement), generated with ignore_not_implemented: such an alternative can never be satisfied, an operation with only such alternatives must answer 401 (listed known finding F-C09-2: it is emitted without a security check).",
+ "C10": " Crafted documents include one whose extension-carrying schemas (x-oapi-codegen-extra-tags, x-ogen-time-format) are shared by reference between properties, parameters of all locations, headers and bodies, and the regression documents of C11.",
+ "C11": " Further kinds: self-recursive component schemas (array item, array of array, required property, map value, sum member) preferring components used by parameters/headers/form bodies and always with the template stage; tuple with a null element; additionalProperties: true; enum member starting with U+FFFD; the same invalid regular expression at several pattern keywords of one document inside one worker process; six raw YAML texts with ten levels of ten aliases at default/example/enum/extension/media-type examples. The worker limits its own address space to 16 GiB so that unbounded growth ends as a reported process death.",
+ "C13": " Every power of two from 2^-1074 to 2^1023 with both neighbours (float64 and float32) is in the special list.",
+ "C15": " Parameter probes: requests synthesised from the document's own declarations (method, path, every parameter as a, 1, a,b, k=v, empty, bracketed, repeated, per location) for every operation, independent of the generated client; 240 one-operation documents at the edge of parameter admission (nested arrays/objects by reference and inline, with a sibling parameter using the inner schema legitimately) are generated, refused ones tallied, admitted ones served; Content-Length values that fit int64 but no buffer.",
+ "C17": " Ten spellings (a literal-block-scalar spelling for multi-line and JSON-looking strings was added); crafted documents hold JSON text and multi-line text as default/example/enum member and one sub-object three times inside a single example/default/extension value.",
+}
+for _pid, _t in EXTRA.items():
+    if _pid in CHECKS:
+        _e = list(CHECKS[_pid]); _e[3] = _e[3] + _t; CHECKS[_pid] = tuple(_e)
+
 NOT_YET = {}
 for i in range(1, 21):
     pid = "C%02d" % i
